@@ -58,6 +58,15 @@ var c17KeyVariants = []c17KeyVariant{
 var c17Caps = []string{"\x00absent", "4", "6", "46", "B", ""}
 
 func c17Addr(opts map[string]string, viaParser bool) (*router_address.RouterAddress, error) {
+	if c17Literal {
+		// assembled field by field (every field is exported) with nothing but the options: what the accessors
+		// answer is a function of the options alone
+		m, err := data.GoMapToMapping(opts)
+		if err != nil || m == nil {
+			return nil, fmt.Errorf("mapping: %v", err)
+		}
+		return &router_address.RouterAddress{TransportOptions: m}, nil
+	}
 	if !viaParser {
 		return router_address.NewRouterAddress(5, time.Time{}, "NTCP2", opts)
 	}
@@ -80,6 +89,10 @@ func c17Addr(opts map[string]string, viaParser bool) (*router_address.RouterAddr
 // accepts any order; only the constructors sort). Set around single-threaded passes only.
 var c17WireOrder func(refmodel.Mapping) refmodel.Mapping
 
+// c17Literal, when set, makes c17Addr assemble the address from its exported fields (options only). Set around
+// single-threaded passes only.
+var c17Literal bool
+
 // c17One evaluates every accessor clause on one options map.
 func c17One(r *core.Run, opts map[string]string, viaParser bool, variant string) {
 	c17Eval(r, opts, viaParser, variant, true)
@@ -92,6 +105,9 @@ func c17Eval(r *core.Run, opts map[string]string, viaParser bool, variant string
 	path := "NewRouterAddress"
 	if viaParser {
 		path = "ReadRouterAddress"
+	}
+	if c17Literal {
+		path = "RouterAddress{TransportOptions}"
 	}
 	var sb strings.Builder
 	for k, v := range opts {
@@ -294,6 +310,26 @@ func runC17(r *core.Run) {
 		c17One(r, jobs[i].opts, false, jobs[i].variant)
 		c17One(r, jobs[i].opts, true, jobs[i].variant)
 	})
+	// the same option maps on addresses assembled from their exported fields with nothing but the options
+	c17Literal = true
+	for i := range jobs {
+		if i%7 == 0 || jobs[i].variant != "exact" { // every 7th of the host x port product, all key-variant and caps jobs
+			c17Eval(r, jobs[i].opts, false, jobs[i].variant, false)
+		}
+	}
+	for _, n := range []int{0, 15, 16, 17, 31, 32, 33} {
+		val := string(refmodel.Fill("sk", uint64(n), n))
+		if ra, err := c17Addr(map[string]string{"s": val, "i": val}, false); err == nil && ra != nil {
+			r.Evaluations.Add(1)
+			var e1, e2 error
+			if pan, msg := core.Guard(func() { _, e1 = ra.StaticKey(); _, e2 = ra.InitializationVector() }); pan {
+				r.Violate("C17|accessor-panics|RouterAddress{TransportOptions}", "StaticKey / InitializationVector panics on an address assembled from its options only: "+msg, core.Case{Kind: "keylen", Args: map[string]string{"n": fmt.Sprint(n)}})
+			} else if (e1 == nil) != (n == 32) || (e2 == nil) != (n == 16) {
+				r.Violate("C17|statickey-length|RouterAddress{TransportOptions}", fmt.Sprintf("address assembled from its options only, %d-byte values: StaticKey err=%v, InitializationVector err=%v", n, e1, e2), core.Case{Kind: "keylen", Args: map[string]string{"n": fmt.Sprint(n)}})
+			}
+		}
+	}
+	c17Literal = false
 	// large option sets (1..24 extra options around the well-known keys), through the constructor and through the
 	// parser in three wire orders: ascending, descending, and interleaved from both ends
 	{
@@ -363,6 +399,43 @@ func runC17(r *core.Run) {
 			}
 			if caps == "\x00absent" && v != "" {
 				r.Violate("C17|ipversion-vs-family|no-host-no-caps", fmt.Sprintf("IPVersion() = %q with neither host nor caps", v), core.Case{Kind: "opts", Args: map[string]string{"pairs": "", "parser": fmt.Sprint(viaParser)}})
+			}
+		}
+	}
+	// static key / IV values that are TEXT: the I2P base64 / base32 / hex spelling of k bytes for every k in 0..48
+	// (a 16-byte IV spelt in base64 is 24 bytes long, a 32-byte key 44): the accessors succeed exactly for 32- and
+	// 16-byte VALUES, whatever the bytes look like, and return those bytes
+	{
+		styles := map[string]func([]byte) string{
+			"base64": func(b []byte) string { return refmodel.B64Encode(b) },
+			"base32": func(b []byte) string { return refmodel.B32Encode(b, false) },
+			"hex":    func(b []byte) string { return fmt.Sprintf("%x", b) },
+			"digits": func(b []byte) string { return strings.Repeat("7", len(b)) },
+			"equals": func(b []byte) string { return strings.Repeat("=", len(b)) },
+		}
+		for _, sn := range []string{"base64", "base32", "hex", "digits", "equals"} {
+			for k := 0; k <= 48; k++ {
+				val := styles[sn](refmodel.Fill("txt", uint64(k), k))
+				if len(val) > 255 {
+					continue
+				}
+				for _, viaParser := range []bool{false, true} {
+					r.Evaluations.Add(1)
+					ra, err := c17Addr(map[string]string{"s": val, "i": val}, viaParser)
+					if err != nil || ra == nil {
+						continue
+					}
+					cs := core.Case{Kind: "keylen", Args: map[string]string{"n": fmt.Sprint(len(val)), "style": sn, "parser": fmt.Sprint(viaParser)}}
+					sk, e1 := ra.StaticKey()
+					iv, e2 := ra.InitializationVector()
+					if (e1 == nil) != (len(val) == 32) || (e1 == nil && string(sk[:]) != val) {
+						r.Violate("C17|statickey-length|text-value["+sn+"]", fmt.Sprintf("static key option holding %d bytes of %s text (%q): err=%v, returned %x", len(val), sn, val, e1, sk), cs)
+					}
+					if (e2 == nil) != (len(val) == 16) || (e2 == nil && string(iv[:]) != val) {
+						r.Violate("C17|iv-length|text-value["+sn+"]", fmt.Sprintf("IV option holding %d bytes of %s text (%q): err=%v, returned %x", len(val), sn, val, e2, iv), cs)
+					}
+					r.Distinct([]byte("keytext"), []byte(sn), []byte{byte(k)}, []byte(fmt.Sprint(viaParser)))
+				}
 			}
 		}
 	}
